@@ -12,7 +12,7 @@ reg("C08",
            "declared initial value; a script source with NEMIT emissions: first offset symbolic in [0,DMAX] us from start, later gaps symbolic in [1,DMAX] us "
            "(1 = consecutive smallest steps); emitted values and the initial value symbolic in [-1e6,1e6]; start symbolic in [0,1000] us after MIN_ST; "
            "window length symbolic in [1,WMAX] us",
-    outside="collection shapes (see C08_feedback_tss for TSS; TSD/TSB not covered); polymorphic TS[Base] deltas "
+    outside="collection shapes (see C08_feedback_tss for TSS, C08_feedback_tsd for TSD; TSB/TSL not covered); polymorphic TS[Base] deltas "
             "(the capture_delta fallback branch of evaluate_feedback_sink); more than NEMIT writes per loop driven by the script (the always-writing shape "
             "performs up to WMAX writes); more than two loops; loops deeper than one nesting level; the request/reply transport's use of feedback",
     assumptions=["the nested variant is wired through hk/hk_nested.h, a line-by-line mirror of subgraph_wiring.h nested_<G> (whose template body crashes clang 14); "
@@ -30,14 +30,37 @@ reg("C08",
            "enumerated set operations over concrete keys {0,1,2} (add 0; add 1; remove 0; add 0 and 1; remove 0 and add 2 - including operations "
            "without net effect); script times symbolic (first offset in [0,DMAX] us, gaps in [1,DMAX] us); start symbolic in [0,1000] us; window symbolic "
            "in [1,WMAX] us",
-    outside="TSS feedback with a declared initial delta; TSD / TSB / TSL feedback; symbolic set elements (keys of hashed containers must be concrete); "
+    outside="TSS feedback with a declared initial delta; TSD feedback (see C08_feedback_tsd); TSB / TSL feedback; symbolic set elements (keys of hashed containers must be concrete); "
             "passive TSS readers; nested graphs",
+    )
+
+reg("C08",
+    name="C08_feedback_tsd", src="harness/C08_feedback_tsd.cpp",
+    anchor_files=["src/hgraph/runtime/feedback_node.cpp", "include/hgraph/runtime/feedback_node.h", "include/hgraph/lib/std/operators/control.h",
+                  "src/hgraph/types/time_series/ts_delta.cpp", "src/hgraph/types/graph_wiring.cpp"],
+    quick=dict(defs=dict(NEMIT=2, DMAX=2, WMAX=4), symx=dict(shards=16, **{"max-wall": 2400})),
+    thorough=dict(defs=dict(NEMIT=3, DMAX=2, WMAX=6), symx=dict(shards=16, **{"max-wall": 3000, "shard-depth": 8})),
+    reach=["end", "tsd_empty_first_tick_written", "tsd_empty_first_tick_delivered", "tsd_empty_initial_delta_delivered", "tsd_initial_delta_delivered",
+           "tsd_empty_delta_tick_written", "tsd_removal_delivered", "tsd_amend_delivered", "tsd_remove_and_add_in_one_tick_delivered",
+           "tsd_clear_of_two_keys_delivered", "tsd_two_keys_in_one_tick_delivered",
+           "tsd_two_deliveries", "tsd_back_to_back_writes", "tsd_writes_with_gap"],
+    bounds="stdlib::feedback<TSD<Int, TS<Int>>> self loop (active reader, Unchecked validity) with 3 enumerated openings: no declared initial value; "
+           "declared initial delta = the EMPTY dictionary (a state loop opened with an empty book); declared initial delta {0: iv}. NEMIT script ticks, each "
+           "applying one of 9 enumerated dictionary operations over concrete keys {0,1,2} (set k0; set k1; erase k0; set k0 and k1; erase k0 + set k2; "
+           "clear; touch = valid-but-empty tick; erase k0 + set k0 in one tick; set k0 + erase k0 in one tick - operations without net effect and the "
+           "empty FIRST tick included); all written values and the initial value symbolic in [-1e6,1e6]; script times symbolic (first offset in "
+           "[0,DMAX] us, gaps in [1,DMAX] us: back-to-back and with gaps); start symbolic in [0,1000] us; window symbolic in [1,WMAX] us",
+    outside="TSB / TSL / TSW feedback; dictionaries of collections (TSD<K,TSS>, TSD<K,TSB>: recursive child deltas); keys created without a value (not part of "
+            "any delta: invisible to the reader until they get a value - observed, not asserted); symbolic keys (keys of hashed containers must be "
+            "concrete); passive TSD readers; nested graphs; authored deltas with strict removals (removed_strict) as initial value",
+    assumptions=["with a declared initial value the reader's dictionary is modelled as the fold of the delivered deltas over the initial contents "
+                 "(feedback transports deltas): e.g. initial {0: iv} followed by the producer's first write {1: a} reads {0: iv, 1: a}"],
     )
 
 META = dict(
     level="bounded symbolic model checking of the real feedback source/sink pair (feedback_node.cpp), its rank-free wiring (control.h FeedbackWiringPort, "
           "graph_wiring.cpp) and the simulation executor: all write times, written values, the initial value, start and window are symbolic; loop shapes enumerated",
-    note="known finding F1 (C08_feedback_tss): a TSS tick with an empty delta on an already valid output is not delivered as a tick - listed in "
-         "known_findings.jsonl; oracle: every read of the feedback port by the reader node, the reader-port recorder stream, the set of evaluations of the reader and the set of "
+    note="known finding F1 (C08_feedback_tss, C08_feedback_tsd): a TSS / TSD tick with an empty delta on an already valid output is not delivered as a tick "
+         "(an empty FIRST tick is, and must be: C08.tsd_empty_first_tick_delivered) - listed in known_findings.jsonl; oracle: every read of the feedback port by the reader node, the reader-port recorder stream, the set of evaluations of the reader and the set of "
          "engine cycles are compared with the one-step-delay model; bounds in evidence coverage.harnesses[*].bounds",
 )
